@@ -86,11 +86,16 @@ Definition inv_late (v : variant) (env : bool) (s : state) : bool :=
                    | VGetSigF | VGetSigTimedF | VGetSigReaderF | VGetSigTimedReaderF | VGetSigPollF => m_exc (tw s) || m_sig (tw s)
                    | VSleep => m_exc (tw s)
                    | VLoop => m_fin (tw s)
+                   | VLoopFinWait => m_fin (tw s) && m_exc (tw s)
                    end)).
 
 (* I3: the loop task runs loop_finalize on every path *)
 Definition inv_finalize (v : variant) (env : bool) (s : state) : bool :=
-  match v with VLoop => implb (done (progs v env) s TW) (m_fin (tw s)) | _ => true end.
+  match v with
+  | VLoop => implb (done (progs v env) s TW) (m_fin (tw s))
+  | VLoopFinWait => implb (done (progs v env) s TW) (m_fin (tw s) && m_exc (tw s) && negb (m_tmo (tw s)))
+  | _ => true
+  end.
 
 (* I4: exactly one outcome; a task released because of the stop request raised the stop exception:
    if the stop call has returned and the task is done, it either raised the stop exception or had
@@ -98,7 +103,7 @@ Definition inv_finalize (v : variant) (env : bool) (s : state) : bool :=
 Definition inv_outcome (v : variant) (env : bool) (s : state) : bool :=
   implb (done (progs v env) s TW)
         (match v with
-         | VLoop => m_fin (tw s)
+         | VLoop | VLoopFinWait => m_fin (tw s)
          | _ => Nat.eqb (Nat.b2n (m_exc (tw s)) + Nat.b2n (m_sig (tw s)) + Nat.b2n (m_tmo (tw s))) 1
          end).
 
